@@ -38,10 +38,13 @@ structure Cand where
 
 def okRet (t : ThObs) : Option Nat := if t.res == some .ok then some t.ret else none
 
+/-- A `Set` that reported an error has written nothing anywhere (it fails only when the tier it writes
+first rejects the value): its value is no candidate — a read must never be served an uncommitted value.
+A `Delete` that reported an error may have removed one of the copies. -/
 def candOf (t : ThObs) : Option Cand :=
   if t.inv == 0 then none else
   match t.op with
-  | .set v _ => some ⟨some v, t.inv, okRet t⟩
+  | .set v _ => if t.res == some .err then none else some ⟨some v, t.inv, okRet t⟩
   | .del => some ⟨none, t.inv, okRet t⟩
   | _ => none
 
@@ -88,7 +91,11 @@ def anyRem (ths : List ThObs) (x : Nat) : Bool := ths.any (fun t => t.op == .rem
 def elems (ths : List ThObs) : List Nat :=
   ths.filterMap (fun t => match t.op with | .app x => some x | .rem x => some x | _ => none)
 
-/-- No list update is lost (vacuous unless every call is an append/remove and all have returned). -/
+/-- No list update is lost and no failed update leaves a trace (vacuous unless every call is an
+append/remove and all have returned): an element whose append succeeded and whose removal did not is in
+the list; one whose removal succeeded and whose append did not is not; nothing is in the list that was
+not there initially or successfully appended; every initial member that was not successfully removed is
+still there.  A call that returned an error has changed nothing. -/
 def holdsList (init : Option Val) (ths : List ThObs) (fget : Res) : Bool :=
   if ths.all (fun t => isListMut t.op && t.res.isSome) then
     match listOf init with
@@ -96,12 +103,12 @@ def holdsList (init : Option Val) (ths : List ThObs) (fget : Res) : Bool :=
     | some l0 =>
       match fget with
       | .val (.list f) =>
-        (elems ths).all (fun x => (!(okApp ths x && !anyRem ths x) || f.contains x) &&
-                                  (!(okRem ths x && !anyApp ths x) || !f.contains x)) &&
-        f.all (fun y => l0.contains y || anyApp ths y) &&
-        l0.all (fun y => anyRem ths y || f.contains y)
-      | .nf => (elems ths).all (fun x => !(okApp ths x && !anyRem ths x)) &&
-               l0.all (fun y => anyRem ths y)
+        (elems ths).all (fun x => (!(okApp ths x && !okRem ths x) || f.contains x) &&
+                                  (!(okRem ths x && !okApp ths x) || !f.contains x)) &&
+        f.all (fun y => l0.contains y || okApp ths y) &&
+        l0.all (fun y => okRem ths y || f.contains y)
+      | .nf => (elems ths).all (fun x => !(okApp ths x && !okRem ths x)) &&
+               l0.all (fun y => okRem ths y)
       | _ => false
   else true
 
